@@ -630,6 +630,46 @@ fn truncate_compiled(seed: u64) -> serde_json::Value {
     json!({"found": false, "routine": "truncate_compiled", "tried": tried})
 }
 
+// C10: structural operations keep every element exactly, also for 128-bit scalar types and values beyond 2^64
+fn structural_wide(seed: u64) -> serde_json::Value {
+    use ciphercore_base::graphs::util::simple_context;
+    use ciphercore_base::graphs::SliceElement;
+    let mut rng = Rng(seed | 1);
+    let mut tried = 0u64;
+    for st in [UINT128, INT128, UINT64, INT32, BIT] {
+        let m: Option<u128> = st.get_modulus();
+        let red = |x: u128| -> u128 { match m { Some(mm) => x % mm, None => x } };
+        let a: Vec<u128> = (0..6).map(|i| red((1u128 << 100) + 7 + i as u128 * ((1u128 << 70) + 1) + ((rng.next() as u128) << 64))).collect();   // shape [2,3]
+        let b: Vec<u128> = (0..6).map(|i| red(u128::MAX - 5 - i as u128 * ((1u128 << 65) + 3))).collect();
+        let ta = array_type(vec![2, 3], st);
+        let mk = |v: &Vec<u128>| Value::from_flattened_array(v, st).unwrap();
+        let cases: Vec<(&str, Box<dyn Fn(&Graph, &[ciphercore_base::graphs::Node]) -> Result<ciphercore_base::graphs::Node>>, Vec<u128>, Type)> = vec![
+            ("Get([1])", Box::new(|_g, i| i[0].get(vec![1])), a[3..6].to_vec(), array_type(vec![3], st)),
+            ("GetSlice([.., 0:3:2])", Box::new(|_g, i| i[0].get_slice(vec![SliceElement::Ellipsis, SliceElement::SubArray(Some(0), Some(3), Some(2))])), vec![a[0], a[2], a[3], a[5]], array_type(vec![2, 2], st)),
+            ("Stack([a, b], [2])", Box::new(|g, i| g.stack(vec![i[0].clone(), i[1].clone()], vec![2])), [a.clone(), b.clone()].concat(), array_type(vec![2, 2, 3], st)),
+            ("Concatenate([a, b], 0)", Box::new(|g, i| g.concatenate(vec![i[0].clone(), i[1].clone()], 0)), [a.clone(), b.clone()].concat(), array_type(vec![4, 3], st)),
+            ("VectorToArray(ArrayToVector(a))", Box::new(|_g, i| i[0].array_to_vector()?.vector_to_array()), a.clone(), array_type(vec![2, 3], st)),
+            ("PermuteAxes(a, [1,0])", Box::new(|_g, i| i[0].permute_axes(vec![1, 0])), vec![a[0], a[3], a[1], a[4], a[2], a[5]], array_type(vec![3, 2], st)),
+            ("Gather(a, [1,0], 0)", Box::new(|g, i| { let idx = g.constant(array_type(vec![2], UINT64), Value::from_flattened_array(&[1u64, 0], UINT64)?)?; i[0].gather(idx, 0) }), [a[3..6].to_vec(), a[0..3].to_vec()].concat(), array_type(vec![2, 3], st)),
+        ];
+        for (name, build, want, rt) in cases {
+            tried += 1;
+            let r = catch_unwind(AssertUnwindSafe(|| -> Result<Vec<u128>> {
+                let c = simple_context(|g| { let x = g.input(ta.clone())?; let y = g.input(ta.clone())?; build(g, &[x, y]) })?;
+                let out = random_evaluate(c.get_main_graph()?, vec![mk(&a), mk(&b)])?;
+                Ok(out.to_flattened_array_u128(rt.clone())?.into_iter().map(red).collect())
+            }));
+            let got = match r { Ok(Ok(v)) => v, Ok(Err(e)) => return json!({"found": true, "routine": "structural_wide", "property": "C10", "input": {"op": name, "scalar_type": format!("{}", st)}, "observed": format!("error: {}", e)}),
+                Err(_) => return json!({"found": true, "routine": "structural_wide", "property": "C10", "input": {"op": name, "scalar_type": format!("{}", st)}, "observed": "panic"}) };
+            if got != want {
+                return json!({"found": true, "routine": "structural_wide", "property": "C10", "input": {"op": name, "scalar_type": format!("{}", st), "a (shape [2,3])": a.iter().map(|x| x.to_string()).collect::<Vec<_>>(), "b (shape [2,3])": b.iter().map(|x| x.to_string()).collect::<Vec<_>>()},
+                    "expected": want.iter().map(|x| x.to_string()).collect::<Vec<_>>(), "observed": got.iter().map(|x| x.to_string()).collect::<Vec<_>>(), "what": "structural operation evaluated by SimpleEvaluator vs. the selected input elements"});
+            }
+        }
+    }
+    json!({"found": false, "routine": "structural_wide", "tried": tried})
+}
+
 // C14: per-party shares reconstruct the secret, for scalars, arrays (incl. bits and 128-bit) and nested containers
 fn share_roundtrip(seed: u64) -> serde_json::Value {
     use ciphercore_base::random::PRNG;
@@ -681,6 +721,7 @@ fn main() {
         Some("arith_kernels") => arith_kernels(seed),
         Some("cmp_small_widths") => cmp_small_widths(seed),
         Some("share_roundtrip") => share_roundtrip(seed),
+        Some("structural_wide") => structural_wide(seed),
         Some("truncate_compiled") => truncate_compiled(seed),
         Some("prf_purity") => prf_purity(seed),
         Some("adder_small_widths") => adder_small_widths(seed),
